@@ -360,6 +360,26 @@ func c17encoding(c *Ctx) {
 							bad("CreateMoveValue", fmt.Sprintf("value %d: %d != %d", v, y, x))
 						}
 					}
+					// overwriting: the value of a move that already carries one (the move sorter
+					// re-values moves in place); every ordered pair of neighbours in vals, both directions,
+					// starting from a move created with a value
+					z := types.CreateMoveValue(types.Square(from), types.Square(to), t, pt, vals[len(vals)-1])
+					for k := 0; k < 2*len(vals); k++ {
+						v := vals[k%len(vals)]
+						if k >= len(vals) {
+							v = vals[2*len(vals)-1-k]
+						}
+						z.SetValue(v)
+						rep.Eval(1)
+						if z.ValueOf() != v {
+							bad("SetValue-overwrite", fmt.Sprintf("set %d on a move that carried a value, read %d", v, z.ValueOf()))
+							break
+						}
+						if z.MoveOf() != m {
+							bad("SetValue-overwrite-changes-move", fmt.Sprintf("value %d", v))
+							break
+						}
+					}
 					// full value range on a subset of moves
 					if idx%128 == 0 {
 						for v := types.ValueNA; v <= types.ValueInf; v++ {
